@@ -266,9 +266,11 @@ def num1 (f : N → N) : List (Value N) → Res N
   | _ => .error (.wrongParameterCount 1)
 
 def upperHexDigits (n : Nat) : Str := (Nat.toDigits 16 n).map Char.toUpper
+/-- `format!("{:X}", i)` for `i : i64`: negative values print as two's complement -/
+def hexUpperI64 (i : Int) : Str := upperHexDigits (if i < 0 then (2^64 + i).toNat else i.toNat)
 /-- `format!("{:X}", value.trunc() as i64)`: negative values print as two's complement -/
 def intToHex : List (Value N) → Res N
-  | [.num x] => let i := NumX.toI64 (NumOps.trunc x); .ok (.str (upperHexDigits (if i < 0 then (2^64 + i).toNat else i.toNat)))
+  | [.num x] => .ok (.str (hexUpperI64 (NumX.toI64 (NumOps.trunc x))))
   | [_] => .error .wrongParameterType
   | _ => .error (.wrongParameterCount 1)
 
